@@ -67,9 +67,17 @@ func (evpool *Pool) verify(evidence types.Evidence) error {
 //      - the block ID's must be different
 //      - The signatures must both be valid
 func VerifyDuplicateVote(e *types.DuplicateVoteEvidence, chainID string, valSet *types.ValidatorSet) error {
-	_, val := valSet.GetByAddress(e.VoteA.ValidatorAddress)
+	idx, val := valSet.GetByAddress(e.VoteA.ValidatorAddress)
 	if val == nil {
 		return fmt.Errorf("address %X was not a validator at height %d", e.VoteA.ValidatorAddress, e.Height())
+	}
+
+	// The index is not covered by the signatures but is part of the evidence hash:
+	// it must be the validator's index, or the same double-sign could be submitted
+	// again under another hash.
+	if e.VoteA.ValidatorIndex != uint32(idx) || e.VoteB.ValidatorIndex != uint32(idx) {
+		return fmt.Errorf("validator indices %d, %d do not match the validator's index %d",
+			e.VoteA.ValidatorIndex, e.VoteB.ValidatorIndex, idx)
 	}
 
 	// H/R/S must be the same
